@@ -1,4 +1,5 @@
 #!/bin/sh
+export VERIF_EVIDENCE_DIR=/verif/build/experiment_evidence   # never overwrite evidence/ with runs on a patched tree
 # usage: seed_check.sh <seeded-name> <prop> [more props]   apply the seeded patch to /repo, run the checks, undo
 NAME="$1"; shift
 git -C /repo apply /verif/seeded/$NAME/patch.diff || { echo "apply failed"; exit 2; }
